@@ -465,7 +465,8 @@ pub fn gen(rng: &mut Rng, n: usize, out: &mut Vec<String>) {
                     specs[idx[j]].oracle_meta = None;
                 }
             }
-            let t: u16 = 1 + rng.below(3) as u16;
+            let full = rng.chance(1, 4);
+            let t: u16 = if full { 10 + rng.below(20) as u16 } else { 1 + rng.below(3) as u16 };
             let mut cb = w.bank(&c);
             cb.emode.emode_tag = t;
             cb.config.risk_tier = RiskTier::Collateral;
@@ -475,10 +476,22 @@ pub fn gen(rng: &mut Rng, n: usize, out: &mut Vec<String>) {
             let entry = |wi: i128, wm: i128| EmodeEntry { collateral_bank_emode_tag: t, flags: 0, pad0: [0; 5], asset_weight_init: I80F48::from_bits(wi).into(), asset_weight_maint: I80F48::from_bits(wm).into() };
             let hi_i = (bi + (ONE - bi) / 2).min(ONE);
             let hi_m = hi_i.max(bm) + (ONE / 20);
-            for (k, which) in [(d1, 0u64), (d2, 1 + rng.below(3))] {
+            // one directed world in four: FULL tables — both debt banks carry all ten entries with the same ten tags (t among them,
+            // often the largest or the smallest): the reconciled configuration then needs every one of its ten slots
+            let base: u16 = if full { match rng.below(3) { 0 => t.saturating_sub(9).max(1), 1 => t, _ => t.saturating_sub(rng.below(10) as u16).max(1) } } else { 0 };
+            for (k, which) in [(d1, 0u64), (d2, if full { 0 } else { 1 + rng.below(3) })] {
                 let mut b = w.bank(&k);
                 b.config.risk_tier = RiskTier::Collateral;
                 for e in b.emode.emode_config.entries.iter_mut() { *e = bytemuck::Zeroable::zeroed(); }
+                if full {
+                    for j in 0..10u16 {
+                        let tag = base + j;
+                        b.emode.emode_config.entries[j as usize] = if tag == t { entry(hi_i, hi_m) } else { EmodeEntry { collateral_bank_emode_tag: tag, ..entry(ONE / 2, ONE * 6 / 10) } };
+                    }
+                    b.emode.flags |= marginfi_type_crate::types::EMODE_ON;
+                    w.set_bank(&k, &b);
+                    continue;
+                }
                 match which {
                     0 => b.emode.emode_config.entries[9] = entry(hi_i, hi_m),                       // boosts t
                     1 => {}                                                                           // no entry at all
